@@ -223,6 +223,47 @@ def pattern_raw_data(repo: Repo, rep, P: str):
             rep.inconclusive(f"{P}.R2", construct, norm(st), "cell bytes are not a slice of the argument", where)
             continue
 
+        # a running cursor: `c = c0` before the loops, `c = c + K` once at the end of every innermost iteration of a full
+        # nested iteration (no break/continue): at cell (a, b) it stands at c0 + K·(a·B + b)
+        nest = []
+        cur2: ast.AST = st
+        while id(cur2) in parents:
+            cur2 = parents[id(cur2)]
+            if isinstance(cur2, ast.For):
+                nest.append(cur2)
+        for nm_ in {x.id for x in ast.walk(val.slice) if isinstance(x, ast.Name)} - set(vars_) - set(index_sub):
+            asg = [a for a in ast.walk(sflat) if (isinstance(a, ast.Assign) and any(isinstance(t_, ast.Name) and t_.id == nm_ for t_ in a.targets))
+                   or (isinstance(a, ast.AugAssign) and isinstance(a.target, ast.Name) and a.target.id == nm_)]
+            if len(asg) != 2 or len(nest) != 2 or not all(isinstance(lp_.target, ast.Name) and lp_.target.id in vars_ and not lp_.orelse for lp_ in nest):
+                continue
+            if any(isinstance(x, (ast.Break, ast.Continue, ast.Return)) for x in ast.walk(nest[-1])):
+                continue
+            init, upd = sorted(asg, key=inline.pos)
+            inner, outer = nest[0], nest[1]
+            if any(init is x for x in ast.walk(outer)) or not any(upd is x for x in inner.body) or inline.pos(upd) < inline.pos(st):
+                continue
+            try:
+                c0 = repo.fold(init.value, ci=pat, sf=pat.file) if isinstance(init, ast.Assign) else None
+            except NotConst:
+                c0 = None
+            step = None
+            if isinstance(upd, ast.AugAssign) and isinstance(upd.op, ast.Add):
+                step = upd.value
+            elif isinstance(upd, ast.Assign):
+                uv = packed.resolve_names(upd.value, defs)
+                if isinstance(uv, ast.BinOp) and isinstance(uv.op, ast.Add):
+                    if isinstance(uv.left, ast.Name) and uv.left.id == nm_:
+                        step = uv.right
+                    elif isinstance(uv.right, ast.Name) and uv.right.id == nm_:
+                        step = uv.left
+            try:
+                k_ = repo.fold(step, ci=pat, sf=pat.file) if step is not None else None
+            except NotConst:
+                k_ = None
+            if isinstance(c0, int) and isinstance(k_, int) and not isinstance(c0, bool):
+                index_sub[nm_] = alg.Poly.const(c0) + alg.Poly.const(k_) * (
+                    alg.Poly.sym(outer.target.id) * alg.Poly.sym("self." + vars_[inner.target.id]) + alg.Poly.sym(inner.target.id))
+
         def leaf(e):
             if isinstance(e, ast.Name):
                 if e.id in index_sub:
@@ -385,9 +426,13 @@ def pattern_raw_data(repo: Repo, rep, P: str):
             inner_root = o if isinstance(o, ast.For) else o.elt
             if any(True for _ in iterations(inner_root, "self.tracks")):
                 nested = True
+            # map(make_cell, range(self.tracks)) / [cell] * … built per row: any iteration over range(self.tracks) inside the row loop
+            roots = o.body if isinstance(o, ast.For) else [o.elt]
+            if any(isinstance(x, ast.Call) and norm(x) == "range(self.tracks)" for r_ in roots for x in ast.walk(r_)):
+                nested = True
     if nested:
         rep.ok(f"{P}.R2", f"{pat.file.rel}:Pattern.clear", "rows = range(self.lines), cells = range(self.tracks)")
-    elif "range(self.lines)" in src or "range(self.tracks)" in src:
+    elif "range(self.lines)" in src and "range(self.tracks)" in src:
         rep.violation(f"{P}.R2", f"{pat.file.rel}:Pattern.clear", src[:120],
                       "the cell array is not built as `lines` rows of `tracks` cells", f"{pat.file.rel}:{clear.lineno}")
     else:
